@@ -143,6 +143,8 @@ def semantic_texts(seed, quick):
     for on in ['StringPrefixLenType', 'ArrayPrefixLenType', 'LittleEndian', 'FixedStringPadChar', 'FixedStringPadFromLeft', 'JavaPackage', 'GoPackage', 'GoModule', 'NoSuchOption', 'littleendian']:
         for ov in optvals:
             rec.append(('option-value/%s' % on, 'options { %s = %s; }\nroot packet A { char[4] X, string S, repeat u8 L, zchar[2] Z, }' % (on, ov)))
+    from .checks_robust import WELLFORMED_TEXTS      # unusual but legal texts: here only "no crash in any generator" is asked
+    rec += [('wellformed/' + k, t) for k, t in WELLFORMED_TEXTS]
     out += rec
     bases = [p for p in gen.matrix_protos() if p.tag.startswith(('Ml', 'Mm', 'Md', 'Mo'))]
     rng = random.Random('%s/sem' % seed)
